@@ -264,6 +264,9 @@ func genCloseUnderLoad(g *vh.Gen) (string, string) {
 func gen(g *vh.Gen) {
 	// the assembled system (server.FullAssembly + Services.Start), one child process per case
 	asmsys.Gen(g, "asm15")
+	for i := 0; i < g.N(6, 200); i++ {
+		g.Emit("fedstop", fmt.Sprint([]int{2, 10, 60, 200}[g.Intn(4)]))
+	}
 	// the hub fed through the asynchronous brokers (stored, then deleted), with and without a failing monitor
 	for i := 0; i < g.N(60, 3000); i++ {
 		events := []int{1, 5, 20, 60, 200, 400}[g.Intn(6)]
